@@ -170,7 +170,7 @@ fn state_hash(w: &crate::sched::World) -> u64 {
     h.finish()
 }
 
-pub const STEP_TIMEOUT: Duration = Duration::from_secs(20);
+pub const STEP_TIMEOUT: Duration = Duration::from_secs(5);
 
 /// Runs `program` once under the schedule given by `prefix` (choice indices at the decisions,
 /// default 0 afterwards). The caller must have called `init_process`.
@@ -192,6 +192,7 @@ pub fn run_once(program: &Program, prefix: &[u32]) -> Execution {
         w.drain_in_progress = false;
         w.reports.clear();
         w.drained = 0;
+        w.reporter_traces = program.name.contains("+rt");
         for a in &program.actors {
             let mut st = crate::sched::ActorState::default();
             st.pending = Some(Pending::Start);
